@@ -94,4 +94,245 @@ theorem reorgB_failed {U : Block → Prop} {g : Block} {N N' : Node} {chain : Li
         show getBlock (applyUnits _ N.D) o.parent = none
         rw [applyUnits_eq, getBlock_harmless N.D hh]; exact c
 
+/-! ### Histories with blocks whose execution fails -/
+
+theorem rollforwardUntil_ok (bad : Nat → Bool) : ∀ l : List Block, (rollforwardUntil bad l).2 = true →
+    (rollforwardUntil bad l).1 = l.flatMap execUnits
+  | [], _ => rfl
+  | b :: bs, h => by
+    simp only [rollforwardUntil] at h ⊢
+    split
+    · rename_i hb; simp [hb] at h
+    · rename_i hb
+      simp only [hb] at h
+      simp [rollforwardUntil_ok bad bs h]
+
+/-- Off the main chain nothing is executed: the run loop is the one of the valid-block model. -/
+theorem runLoopB_side_eq (bad : Nat → Bool) : ∀ (fuel : Nat) (N : Node) (b : Block) (acc : List Unit),
+    runLoopB bad false fuel N b acc = (runLoop false fuel N b acc).map (fun r => (r.1, r.2.1, r.2.2, true))
+  | 0, _, _, _ => rfl
+  | fuel + 1, N, b, acc => by
+    simp only [runLoopB, runLoop, Bool.false_eq_true, false_and, if_false]
+    split
+    · rfl
+    · split
+      · rfl
+      · exact runLoopB_side_eq bad fuel _ _ _
+
+section LoopB
+variable {U : Block → Prop} {g : Block}
+
+private theorem filter_lt' {l : List Block} {o : Block} {i : Nat} (ho : o ∈ l) (hp : o.parent = i) :
+    (l.filter (fun x => decide (x.parent ≠ i))).length < l.length := by
+  apply List.length_filter_lt_length_iff_exists.mpr
+  exact ⟨o, ho, by simp [hp]⟩
+
+/-- The run loop on the main chain when executions may fail: as `runLoop_main`, and a failing block stops the loop
+with nothing written for it. -/
+theorem runLoopB_main (T : Tree U g) (bad : Nat → Bool) : ∀ (fuel : Nat) (N : Node) (b : Block) (acc : List Unit) (chain : List Block),
+    Coh U g N chain → U b → getBlock N.D b.id = none → b.parent = N.best.id → N.orphans.length < fuel →
+    ∃ N' last us chain' ok, runLoopB bad true fuel N b acc = some (N', last, acc ++ us, ok) ∧ Coh U g N' chain' ∧
+      N'.D = applyUnits us N.D ∧ chain <+: chain' ∧
+      CrashOK U g (fun c => chain <+: c ∧ c <+: chain') N.D us := by
+  intro fuel
+  induction fuel with
+  | zero => intro N b acc chain _ _ _ _ h; omega
+  | succ fuel ih =>
+    intro N b acc chain C hU hnew hp hfuel
+    by_cases hbad : bad b.id = true
+    · refine ⟨N, b, [], chain, false, ?_, C, rfl, List.prefix_refl _, ?_⟩
+      · simp [runLoopB, hbad]
+      · exact CrashOK.nil C.d ⟨List.prefix_refl _, List.prefix_refl _⟩
+    have hbad' : bad b.id = false := by simpa using hbad
+    have hg := C.d.ne_g_of_new hnew
+    have C1 := C.d.connect T hU hnew hp
+    have hgb : ∀ i, getBlock (applyUnits (connectUnits b) N.D) i = if i = b.id then some b else getBlock N.D i :=
+      getBlock_connect N.D b
+    have hcr := C.d.crashOK_connect T hU hnew hp
+    have horph : ∀ o ∈ N.orphans, o.parent ≠ b.id → getBlock (applyUnits (connectUnits b) N.D) o.parent = none := by
+      intro o ho hne
+      rw [hgb, if_neg hne]; exact (C.orph o ho).2.2
+    cases hf : N.orphans.find? (fun o => o.parent = b.id) with
+    | none =>
+      have hno : ∀ o ∈ N.orphans, o.parent ≠ b.id := by
+        intro o ho
+        have := List.find?_eq_none.mp hf o ho
+        simpa using this
+      refine ⟨{ N with D := applyUnits (connectUnits b) N.D, best := b, sdbRoot := b.root }, b, connectUnits b,
+        chain ++ [b], true, ?_, ⟨C1, rfl, ?_⟩, rfl, List.prefix_append _ _, ?_⟩
+      · simp [runLoopB, hbad', connect, hf]
+      · intro o ho
+        exact ⟨(C.orph o ho).1, (C.orph o ho).2.1, horph o ho (hno o ho)⟩
+      · apply hcr.mono
+        rintro c (rfl | rfl)
+        · exact ⟨List.prefix_refl _, List.prefix_append _ _⟩
+        · exact ⟨List.prefix_append _ _, List.prefix_refl _⟩
+    | some o =>
+      have ho : o ∈ N.orphans := List.mem_of_find?_eq_some hf
+      have hop : o.parent = b.id := by
+        have := List.find?_some hf
+        simpa using this
+      obtain ⟨hoU, hog, _⟩ := C.orph o ho
+      have hono : o.no = b.no + 1 := T.child_no hoU hog hU hop
+      let N2 : Node := { D := applyUnits (connectUnits b) N.D, best := b, sdbRoot := b.root,
+                         orphans := N.orphans.filter (fun x => x.parent ≠ b.id) }
+      have C2 : Coh U g N2 (chain ++ [b]) := by
+        refine ⟨C1, rfl, ?_⟩
+        intro x hx
+        have hx' := List.mem_filter.mp hx
+        have hne : x.parent ≠ b.id := by simpa using hx'.2
+        exact ⟨(C.orph x hx'.1).1, (C.orph x hx'.1).2.1, horph x hx'.1 hne⟩
+      have hoid : o.id ≠ b.id := by
+        intro e
+        have : o = b := T.uid o b hoU hU e
+        subst this
+        exact T.not_self_parent hU hg hop
+      have honew : getBlock N2.D o.id = none := by
+        show getBlock (applyUnits (connectUnits b) N.D) o.id = none
+        rw [hgb, if_neg hoid]; exact C.orphan_new T ho
+      have hlen : N2.orphans.length < fuel := by
+        have := filter_lt' ho hop
+        show (N.orphans.filter (fun x => decide (x.parent ≠ b.id))).length < fuel
+        omega
+      obtain ⟨N', last, us', chain', ok, hrun, C', hD', hpre, hcr'⟩ :=
+        ih N2 o (acc ++ connectUnits b) (chain ++ [b]) C2 hoU honew hop hlen
+      refine ⟨N', last, connectUnits b ++ us', chain', ok, ?_, C', ?_, ?_, ?_⟩
+      · have : runLoopB bad true (fuel + 1) N b acc = runLoopB bad true fuel N2 o (acc ++ connectUnits b) := by
+          simp [runLoopB, hbad', connect, hf, hono, N2]
+        rw [this, hrun, List.append_assoc]
+      · rw [hD', applyUnits_append]
+      · exact (List.prefix_append _ _).trans hpre
+      · apply CrashOK.append
+        · apply hcr.mono
+          rintro c (rfl | rfl)
+          · exact ⟨List.prefix_refl _, (List.prefix_append _ _).trans hpre⟩
+          · exact ⟨List.prefix_append _ _, hpre⟩
+        · apply hcr'.mono
+          rintro c ⟨h1, h2⟩
+          exact ⟨(List.prefix_append _ _).trans h1, h2⟩
+
+/-- **One arrival when executions may fail** (any set of failing blocks): the node stays coherent, its store is the
+old store plus the units reported, every prefix of those units is recoverable to the chain before the arrival,
+after it, or in between. With no failing block this is `feed_hist` (`feedB_valid`). -/
+theorem feedB_hist (T : Tree U g) (bad : Nat → Bool) {N : Node} {chain : List Block}
+    (C : Coh U g N chain) {b : Block} (hU : U b) :
+    ∃ chain', Coh U g (feedB bad N b).1 chain' ∧
+      (feedB bad N b).1.D = applyUnits (feedB bad N b).2.2 N.D ∧
+      CrashOK U g (Legit chain chain') N.D (feedB bad N b).2.2 := by
+  cases hst : getBlock N.D b.id with
+  | some b' =>
+    have hf : feedB bad N b = (N, .ok, []) := by simp [feedB, hst]
+    rw [hf]
+    exact ⟨chain, C, rfl, CrashOK.nil C.d (Or.inl rfl)⟩
+  | none =>
+    have hg := C.d.ne_g_of_new hst
+    cases hpar : getBlock N.D b.parent with
+    | none =>
+      by_cases hany : N.orphans.any (fun o => o.parent = b.parent) = true
+      · have hf : feedB bad N b = (N, .ok, []) := by simp [feedB, hst, hpar, hany]
+        rw [hf]
+        exact ⟨chain, C, rfl, CrashOK.nil C.d (Or.inl rfl)⟩
+      · have hf : feedB bad N b = ({ N with orphans := N.orphans ++ [b] }, .ok, []) := by simp [feedB, hst, hpar, hany]
+        rw [hf]
+        refine ⟨chain, ⟨C.d, C.root, ?_⟩, rfl, CrashOK.nil C.d (Or.inl rfl)⟩
+        intro o ho
+        rcases List.mem_append.mp ho with h | h
+        · exact C.orph o h
+        · simp at h; subst h; exact ⟨hU, hg, hpar⟩
+    | some p =>
+      have hpar' : (getBlock N.D b.parent).isSome = true := by rw [hpar]; rfl
+      by_cases him : isMainChain N b = true
+      · have hp := (C.isMain_iff T hU hst).mp him
+        obtain ⟨N', last, us, chain', ok, hrun, C', hD', hpre, hcr⟩ :=
+          runLoopB_main T bad (N.orphans.length + 1) N b [] chain C hU hst hp (Nat.lt_succ_self _)
+        have hf : feedB bad N b = (N', if ok then .ok else .err, us) := by
+          cases ok <;> simp [feedB, hst, hpar, him, hrun]
+        rw [hf]
+        exact ⟨chain', C', hD', hcr.mono (fun c hc => Or.inr (Or.inr hc))⟩
+      · have him' : isMainChain N b = false := by simpa using him
+        have hne : b.parent ≠ N.best.id := fun e => him ((C.isMain_iff T hU hst).mpr e)
+        obtain ⟨N', last, us, hrun, C', hb', hr', hD', hls, hlc, hleaf, hcr⟩ :=
+          runLoop_side T (N.orphans.length + 1) N b [] chain C hU hst hpar' hne (Nat.lt_succ_self _)
+        have hrunB : runLoopB bad false (N.orphans.length + 1) N b [] = some (N', last, [] ++ us, true) := by
+          rw [runLoopB_side_eq, hrun]; rfl
+        by_cases hlt : N'.best.no < last.no
+        · obtain ⟨pre, old, new, start, hch, F, hcr2, CF, hblk⟩ := C'.d.crashOK_reorg T hls hlc hlt hleaf
+          by_cases hr : (rollforwardUntil bad new.reverse).2 = true
+          · have hu : (rollforwardUntil bad new.reverse).1 = rollforwardUnits new := rollforwardUntil_ok bad _ hr
+            have hre : reorgB bad N' last = some ({ N' with
+                  D := applyUnits (rollforwardUnits new ++ swapUnits (markerOf start N'.best last) old new last false) N'.D,
+                  best := last, sdbRoot := last.root },
+                rollforwardUnits new ++ swapUnits (markerOf start N'.best last) old new last false, true) := by
+              simp [reorgB, F.gather_eq, hr, hu]
+            have hf : feedB bad N b = ({ N' with
+                  D := applyUnits (rollforwardUnits new ++ swapUnits (markerOf start N'.best last) old new last false) N'.D,
+                  best := last, sdbRoot := last.root }, .ok,
+                us ++ (rollforwardUnits new ++ swapUnits (markerOf start N'.best last) old new last false)) := by
+              simp [feedB, hst, hpar, him', hrunB, hlt, hre]
+            rw [hf]
+            refine ⟨pre ++ new.reverse, ⟨CF, rfl, ?_⟩, ?_, ?_⟩
+            · intro o ho
+              obtain ⟨h1, h2, h3⟩ := C'.orph o ho
+              refine ⟨h1, h2, ?_⟩
+              show getBlock (applyUnits _ N'.D) o.parent = none
+              rw [hblk]; exact h3
+            · simp only [applyUnits_append, hD']
+            · apply CrashOK.append (hcr.mono (fun c hc => Or.inl hc))
+              rw [← hD']
+              apply hcr2.mono
+              rintro c (rfl | rfl)
+              · exact Or.inl rfl
+              · exact Or.inr (Or.inl rfl)
+          · have hr' : (rollforwardUntil bad new.reverse).2 = false := by simpa using hr
+            have hre : reorgB bad N' last = some ({ N' with D := applyUnits (rollforwardUntil bad new.reverse).1 N'.D },
+                (rollforwardUntil bad new.reverse).1, false) := by
+              simp [reorgB, F.gather_eq, hr']
+            obtain ⟨C2, _, _, hcr3⟩ := reorgB_failed bad C' hre
+            have hf : feedB bad N b = ({ N' with D := applyUnits (rollforwardUntil bad new.reverse).1 N'.D }, .err,
+                us ++ (rollforwardUntil bad new.reverse).1) := by
+              simp [feedB, hst, hpar, him', hrunB, hlt, hre]
+            rw [hf]
+            refine ⟨chain, C2, ?_, ?_⟩
+            · simp only [applyUnits_append, hD']
+            · apply CrashOK.append (hcr.mono (fun c hc => Or.inl hc))
+              rw [← hD']
+              exact hcr3.mono (fun c hc => Or.inl hc)
+        · have hf : feedB bad N b = (N', .ok, us) := by simp [feedB, hst, hpar, him', hrunB, hlt]
+          rw [hf]
+          exact ⟨chain, C', hD', hcr.mono (fun c hc => Or.inl hc)⟩
+
+end LoopB
+
+/-- Events of a history in which the execution of some blocks fails. -/
+def stepEvB (bad : Nat → Bool) (N : Node) : Ev → Except Err Node
+  | .feed b => .ok (feedB bad N b).1
+  | .crash b k js => restartChain (crash (feedB bad N b).2.2 k N.D) js
+
+def runEvsB (bad : Nat → Bool) : Node → List Ev → Except Err Node
+  | N, [] => .ok N
+  | N, e :: es =>
+    match stepEvB bad N e with
+    | .error x => .error x
+    | .ok N' => runEvsB bad N' es
+
+/-- **Every history, with any set of failing blocks.** -/
+theorem historyB_coherent {U : Block → Prop} {g : Block} (T : Tree U g) (bad : Nat → Bool) :
+    ∀ (es : List Ev) (N : Node) (chain : List Block), Coh U g N chain → (∀ e ∈ es, U e.block) →
+      ∃ N' chain', runEvsB bad N es = .ok N' ∧ Coh U g N' chain'
+  | [], N, chain, C, _ => ⟨N, chain, rfl, C⟩
+  | e :: es, N, chain, C, hU => by
+    have hUe := hU e (List.mem_cons_self ..)
+    have step : ∃ N1 c1, stepEvB bad N e = .ok N1 ∧ Coh U g N1 c1 := by
+      cases e with
+      | feed b =>
+        obtain ⟨c1, C1, _, _⟩ := feedB_hist T bad C hUe
+        exact ⟨_, c1, rfl, C1⟩
+      | crash b k js =>
+        obtain ⟨c1, _, _, hcr⟩ := feedB_hist T bad C hUe
+        obtain ⟨N1, c', hr, C', _, _⟩ := (hcr k).restartChain js
+        exact ⟨N1, c', hr, C'⟩
+    obtain ⟨N1, c1, h1, C1⟩ := step
+    obtain ⟨N', c', h2, C'⟩ := historyB_coherent T bad es N1 c1 C1 (fun x hx => hU x (List.mem_cons_of_mem _ hx))
+    exact ⟨N', c', by simp [runEvsB, h1, h2], C'⟩
+
 end Aergo.Crash
